@@ -121,7 +121,7 @@ def confirm(chk, pid, sess, phi, bdd_str, model, name, signature, self_loops=Tru
     nat, _, job = RP.run_concrete(sess.dec.n, T, sets, phi)
     chk.obligation(name, 'E-UNI', 'violated')
     chk.violation(name, signature,
-                  {'instance': sess.inst.name, 'aeon': sess.inst.aeon, 'k': sess.k, 'formula': S.show(phi), 'colour': {k: v for k, v in colour.items()}, 'state': state,
+                  {'instance': sess.inst.name, 'aeon': sess.inst.aeon, 'k': sess.k, 'formula': S.show(phi), 'phi': phi, 'n': sess.dec.n, 'colour': {k: v for k, v in colour.items()}, 'state': state,
                    'valid_colour': unit_ok, 'universal_answer': got, 'explicit_semantics': want,
                    'instantiated_network': job['aeon'], 'instantiated_sets': {l: sorted(x) for l, x in sets.items()},
                    'instantiated_native_states': sorted(nat) if isinstance(nat, set) else list(nat), 'explicit_states': sorted(spec)},
